@@ -288,7 +288,13 @@ impl<'a> Driver<'a> {
             }
         }
         // query operations
-        if n_query > 0 && !matches!(ops.last(), Some(Op::Query(_))) && !exp.stopped {
+        // a state whose mask is empty without being a stop (the vocabulary has no token for the only byte the
+        // grammar allows next — the job's alphabet does not cover it) ends the engine at the next mask
+        // computation: that is stop semantics (C03 / C18 with byte-covering vocabularies), not caching
+        if exp.mask.is_err() && !exp.stopped {
+            self.count("states_with_uncovered_forced_byte");
+        }
+        if n_query > 0 && !matches!(ops.last(), Some(Op::Query(_))) && !exp.stopped && exp.mask.is_ok() {
             let qs: Vec<u8> = if canonical { vec![0, 1, 2, 3, 4, 5] } else { vec![0, 1, 2, 3, 5] };
             for q in qs {
                 let mut s2 = s.clone();
